@@ -661,3 +661,156 @@ func TestVerifC05Net(t *testing.T) {
 		fmt.Println(string(b))
 	}
 }
+
+// TestVerifC05NetQuorum: a leader that has lost its quorum.  Both followers are killed, a POST and -- while it is
+// still pending -- its retry (same client message id) are sent to the leader, which cannot commit; then the
+// leader is killed as well, the two followers come back, elect a leader and commit something, and finally
+// the old leader returns (its uncommitted entry is overwritten).  Whatever was answered with success must be
+// served by every node afterwards; a message is never served twice.
+func TestVerifC05NetQuorum(t *testing.T) {
+	log.SetOutput(io.Discard)
+	shard, _ := strconv.Atoi(os.Getenv("VERIF_SHARD"))
+	res := &cnResult{EndStates: map[string]int{}}
+	sigs := map[string]*cnViol{}
+	if shard == 0 {
+		func() {
+			seq := []string{"quorum-loss"}
+			inconclusive := func(why string) {
+				if res.HarnessErr == "" {
+					res.HarnessErr = "time cap reached (inconclusive wait: " + why + ")"
+				}
+			}
+			port := cnFreePorts(31000)
+			if port < 0 {
+				res.HarnessErr = "HARNESS: no free ports"
+				return
+			}
+			c, err := cnStart(t.TempDir()+"/q", port)
+			if c != nil {
+				defer c.shutdown()
+			}
+			if err != nil {
+				inconclusive("network start: " + err.Error())
+				return
+			}
+			if err := c.l.SetConfig(cnConfig); err != nil {
+				inconclusive("config: " + err.Error())
+				return
+			}
+			var sess [3]cnSession
+			for k, nick := range []string{"a", "b", "v"} {
+				s, err := c.createSession(60 * time.Second)
+				if err != nil {
+					inconclusive(err.Error())
+					return
+				}
+				sess[k] = s
+				for _, l := range []string{"NICK " + nick, "USER " + nick + " 0 * :" + nick, "JOIN #c"} {
+					if ok, _ := c.post(s, l, c.nextCmid(), 60*time.Second); !ok {
+						inconclusive("setup line not acknowledged")
+						return
+					}
+				}
+			}
+			A, B, V := sess[0], sess[1], sess[2]
+			res.Sequences++
+			ld := c.leader()
+			if ld == nil {
+				inconclusive("no leader")
+				return
+			}
+			var followers []*cnNode
+			for _, n := range c.liveNodes() {
+				if n != ld {
+					followers = append(followers, n)
+				}
+			}
+			for _, f := range followers {
+				c.kill(f)
+				res.Kills++
+			}
+			text := "msg-without-quorum"
+			cmid := c.nextCmid()
+			body, _ := json.Marshal(struct {
+				Data            string
+				ClientMessageId uint64
+			}{"PRIVMSG #c :" + text, cmid})
+			hdr := map[string]string{"X-Session-Auth": A.Auth, "Content-Type": "application/json"}
+			first := make(chan int, 1)
+			go func() {
+				code, _, _, err := c.do(ld, "POST", "/robustirc/v1/"+A.Id+"/message", hdr, string(body), 25*time.Second)
+				if err != nil {
+					code = -1
+				}
+				first <- code
+			}()
+			time.Sleep(time.Second)
+			retryCode, _, _, rerr := c.do(ld, "POST", "/robustirc/v1/"+A.Id+"/message", hdr, string(body), 20*time.Second)
+			if rerr != nil {
+				retryCode = -1
+			}
+			res.Retries++
+			firstCode := <-first
+			acked := firstCode == 200 || retryCode == 200
+			res.EndStates[fmt.Sprintf("without quorum: first attempt -> %d, retry while it is pending -> %d", firstCode, retryCode)]++
+			c.kill(ld)
+			res.Kills++
+			for _, f := range followers {
+				if err := c.restart(f); err != nil {
+					inconclusive(err.Error())
+					return
+				}
+				res.Restarts++
+			}
+			if err := c.waitHealthy(1, 90*time.Second); err != nil {
+				inconclusive(err.Error())
+				return
+			}
+			if ok, _ := c.post(V, "PRIVMSG #c :committed-by-the-new-leader", c.nextCmid(), 90*time.Second); !ok {
+				inconclusive("the two restarted nodes do not accept a message")
+				return
+			}
+			if err := c.restart(ld); err != nil {
+				inconclusive(err.Error())
+				return
+			}
+			res.Restarts++
+			if err := c.waitHealthy(1, 90*time.Second); err != nil {
+				inconclusive(err.Error())
+				return
+			}
+			marker := "drain-quorum-loss"
+			if ok, _ := c.post(V, "PRIVMSG #c :"+marker, c.nextCmid(), 90*time.Second); !ok {
+				inconclusive("marker not acknowledged")
+				return
+			}
+			for _, n := range c.liveNodes() {
+				msgs, err := c.stream(n, B, marker, 90*time.Second)
+				res.Streams++
+				if err != nil {
+					inconclusive(fmt.Sprintf("node %d did not serve the stream: %v", n.port, err))
+					return
+				}
+				cnt := 0
+				for _, m := range msgs {
+					if strings.Contains(m.Data, text) {
+						cnt++
+					}
+				}
+				switch {
+				case acked && cnt == 0:
+					res.report(sigs, "a message acknowledged by a leader without quorum is lost", fmt.Sprintf("first attempt answered %d, the retry sent while it was pending answered %d; after the old leader's log was overwritten node %d does not serve the message", firstCode, retryCode, n.port), seq)
+				case cnt > 1:
+					res.report(sigs, "message delivered more than once after a quorum loss", fmt.Sprintf("%d times on node %d", cnt, n.port), seq)
+				}
+			}
+			res.Ops++
+		}()
+	}
+	b, _ := json.Marshal(res)
+	if o := os.Getenv("VERIF_OUT"); o != "" {
+		os.WriteFile(o, b, 0644)
+	} else {
+		fmt.Println(string(b))
+	}
+}
